@@ -56,7 +56,7 @@ var localKnownTags = map[string]bool{
 	"c09-extractbits-abstract-arg-typed-u32":             true, // C09-11
 	"c09-bitcast-of-abstract-literal":                    true, // C09-12
 	"c09-validate-duplicate-binding-across-entry-points": true, // C09-13
-	"c09-compound-assign-abstract-splat-rhs":             true, // C09-14
+	"c09-abstract-splat-not-concretized":                 true, // C09-14
 }
 
 func excluded(tag string) bool {
@@ -377,6 +377,13 @@ func matchKnown(m *ir.Module, is irx.Issue) string {
 	kind := exprKind(is, is.Expr)
 	switch is.Rule {
 	case irx.RuleTypingError:
+		// C09-14 (cascade): something computed from a Splat of an abstract literal.
+		if is.Fn != nil && dependsOn(is.Fn, is.Expr, 0, func(h int) bool {
+			sp, ok := is.Fn.Expressions[h].Kind.(ir.ExprSplat)
+			return ok && isAbstractLiteral(is.Fn, int(sp.Value))
+		}) {
+			return "c09-abstract-splat-not-concretized"
+		}
 		// C09-7: (*p).xy on a pointer PARAMETER becomes Swizzle{Vector: FunctionArgument}
 		// with no Load; the swizzle and everything computed from it cannot be typed.
 		if is.Fn != nil && dependsOnPtrArgSwizzle(m, is.Fn, is.Expr, 0) {
@@ -399,9 +406,10 @@ func matchKnown(m *ir.Module, is irx.Issue) string {
 				}
 			}
 		}
-		// C09-14: `v op= vecN(<abstract literal>)` keeps the abstract literal under the Splat.
+		// C09-14: `v op= vecN(<abstract literal>)` / `vec3(x, vec2(<abstract literal>))` keep
+		// the abstract literal under the Splat.
 		if is.Fn != nil && abstractUnderSplat(is.Fn, is.Expr) {
-			return "c09-compound-assign-abstract-splat-rhs"
+			return "c09-abstract-splat-not-concretized"
 		}
 		if is.Rule == irx.RuleAbstractLiteral {
 			return ""
@@ -535,6 +543,22 @@ func valueOfAtomicStore(m *ir.Module, f *ir.Function, b ir.Block, h int, depth i
 			if valueOfAtomicStore(m, f, sb, h, depth+1) {
 				return true
 			}
+		}
+	}
+	return false
+}
+
+// dependsOn: pred holds for h or for one of its transitive operands.
+func dependsOn(f *ir.Function, h int, depth int, pred func(h int) bool) bool {
+	if h < 0 || h >= len(f.Expressions) || depth > 64 {
+		return false
+	}
+	if pred(h) {
+		return true
+	}
+	for _, op := range irx.Operands(f.Expressions[h].Kind) {
+		if int(op) < h && dependsOn(f, int(op), depth+1, pred) {
+			return true
 		}
 	}
 	return false
